@@ -11,7 +11,7 @@ import json
 import os
 
 import vlib
-from checks import c09
+from checks import c09, c10
 
 
 def run(tier):
@@ -42,6 +42,8 @@ def run(tier):
     ck.cov["exhaustive"] = True
     ck.assumptions += ["labels outside the given segmentation info are outside the quantifier (unassigned = -1 is inside)",
                        "empty ranges carry no triangles: their stored offsets are not constrained"]
+    # the partition API as a machine (PartApi.tla, §3.7): read-back of labels after every call order
+    c10.api_machine(ck, tier, wd, exe, prop="C17")
     return ck.finish()
 
 
